@@ -128,6 +128,32 @@ Section Due.
   Proof. unfold cron_delay. destruct (cron_due tzoff e off now); auto. Qed.
 End Due.
 
+(* ---- what "across daylight-saving changes" means for the model, for ANY offset function with one transition at T:
+   spring forward by g: no instant reads a wall clock inside the skipped interval [T+o, T+o+g) - a schedule whose only
+   matching minutes lie there is never due on that day; fall back by g: every wall-clock reading of the repeated interval
+   [T+o-g, T+o) is shown at two instants g apart, and the schedule gets the same answer at both *)
+Lemma dst_gap_never_read tzoff z T o g : 0 < g ->
+  (forall t, t < T -> tzoff z t = o) -> (forall t, T <= t -> tzoff z t = o + g) ->
+  forall now, ~ (T + o <= now + shift tzoff (Zone z) now < T + o + g).
+Proof.
+  intros Hg Hb Ha now. cbn [shift]. destruct (Z_lt_ge_dec now T) as [H | H].
+  - rewrite (Hb now H). lia.
+  - rewrite (Ha now ltac:(lia)). lia.
+Qed.
+
+Lemma dst_overlap_twice tzoff z T o g e L : 0 < g ->
+  (forall t, t < T -> tzoff z t = o) -> (forall t, T <= t -> tzoff z t = o - g) ->
+  T + o - g <= L < T + o ->
+  (L - o) + shift tzoff (Zone z) (L - o) = L /\ (L - o + g) + shift tzoff (Zone z) (L - o + g) = L /\
+  cron_due tzoff e (Zone z) (L - o) = cron_due tzoff e (Zone z) (L - o + g).
+Proof.
+  intros Hg Hb Ha HL. cbn [shift].
+  assert (E1 : tzoff z (L - o) = o) by (apply Hb; lia).
+  assert (E2 : tzoff z (L - o + g) = o - g) by (apply Ha; lia).
+  split; [lia|]. split; [lia|].
+  apply seconds_irrelevant. cbn [shift]. rewrite E1, E2. f_equal. lia.
+Qed.
+
 Lemma utc_default_iff tzoff e now : wf_expr e = true ->
   (cron_due tzoff e NoOffset now = true <-> Matches e (fields_of (floor_minute now))).
 Proof. intros H. rewrite (due_iff tzoff e NoOffset now H). cbn [shift]. rewrite Z.add_0_r. reflexivity. Qed.
